@@ -39,7 +39,8 @@ CHECKS = {
             "runtime monitoring: recorded compilation results of re-spelled sources compared offline",
             "Each generated program is re-spelled (hostile layout, comments at every token boundary, alternative literal and "
             "keyword forms) and compiled by the real compiler; ops with raw offsets, routine tables and position marks must "
-            "be identical to those of the canonical spelling. Macro layouts whose imported files are re-spelled are compiled in this process and in a "
+            "be identical to those of the canonical spelling; every program is also compiled in a one-line spelling, and some shards write "
+            "the same position mark at several places. Macro layouts whose imported files are re-spelled are compiled in this process and in a "
             "child interpreter whose default encoding is ASCII (C locale).",
             "Trusts my token printer: separators are only dropped where tokens cannot glue; string re-spellings only when my decoder agrees.",
             "DESIGN.md 3/C16"),
@@ -47,7 +48,7 @@ CHECKS = {
             "runtime monitoring: offline checker over the recorded token stream of the real Pygments lexer",
             "Random Unicode strings, token soup and program texts are lexed with the real lexer class; the recorded stream must "
             "concatenate to the input with contiguous indices within a logical token bound, and contain no error token for "
-            "compiler-accepted sources.",
+            "compiler-accepted sources. Two token streams of one lexer object consumed alternately must equal the streams consumed alone.",
             "Pygments' default input preprocessing is re-implemented from its documentation for get_tokens().",
             "DESIGN.md 3/C17"),
     "C04": ("exploration",
@@ -67,7 +68,8 @@ CHECKS = {
             "runtime monitoring: listing of the real PositionMarkVisitor compared with the printer's recorded positions; edit clause by recompilation",
             "Programs rich in Position literals are printed in hostile layouts by my printer, which records where each literal "
             "starts and ends; the real listing must agree in count, order, spans and values, and replacing a listed span by an "
-            "edited mark must change exactly that parameter of the recompiled program.",
+            "edited mark must change exactly that parameter of the recompiled program. Programs in which earlier literals are written "
+            "again at later places are part of the workload.",
             "Trusts my renderer's line/column bookkeeping (cross-checked by the edit clause hitting the right text).",
             "DESIGN.md 3/C18"),
     "C02": ("translation_validation",
@@ -121,7 +123,8 @@ CHECKS = {
             "command; its stdout must validate against the documented structure, every jump parameter must be the 1-based position "
             "of its target, and the decompile command must accept it and print a program behaving like the source. Documents written "
             "from the docs (all routine and argument types, numeric and string coordinates) must be accepted; invalid sources and "
-            "malformed documents must exit non-zero without output. The compile command is run again under other output encodings and must print the same bytes.",
+            "malformed documents must exit non-zero without output; settings documents lacking a documented key may only give exit 0 "
+            "together with the documented structure. The compile command is run again under other output encodings and must print the same bytes.",
             "Trusts my transcription of docs/cli_api_usage.rst into a JSON Schema; behaviour comparison only for the structured class.",
             "DESIGN.md 3/C15"),
     "C11": ("exploration",
